@@ -125,8 +125,16 @@ def _plugin_child(world, spec, out_path, trace_path):
     seams_mod.install(S)
     seams_mod.install_formatter(S, spec.get("fmt") or {"kind": "black"})
     asked = []
-    if not spec.get("real_stdin"):
+    if spec.get("real_stdin") is None:
         _install_answers(spec.get("answers"), asked)
+    else:
+        # the real prompt path: rich.prompt.Confirm reads the scripted lines from fd 0
+        r_fd, w_fd = os.pipe()
+        os.write(w_fd, spec["real_stdin"].encode())
+        os.close(w_fd)
+        os.dup2(r_fd, 0)
+        os.close(r_fd)
+        sys.stdin = io.TextIOWrapper(os.fdopen(0, "rb", closefd=False), encoding="utf-8")
 
     res = {"tests": {}, "finish_exc": None, "main_exc": None, "collected": []}
 
